@@ -720,7 +720,7 @@ class TimeExceeded (icmp_base):
     self._init(kw)
 
   def _fields (self):
-    f = ['mtu']
+    f = []
     r = {}
     for ff in f:
       r[ff] = getattr(self, ff)
